@@ -2,7 +2,8 @@
   Id strings (C16): `_device_id_string` / `TypeLengthString` / `_unpack6bitascii` / `bcd_decode`
   of the (intended) model read back every id string written by the specification's encoder,
   in all four type/length encodings, for every length — by induction on the string.
-  The BCD map is the one regenerated from `utils.BCD_MAP`.  Core only.
+  The BCD plus table of the SDR path is the sixteen-code table of §43.15 (`bcdPlusSdr_sweep`); that the table
+  regenerated from the working tree is this table is `Props.C16.bcd_plus_sdr_table`.  Core only.
 -/
 import PyIpmi.Lemmas.SdrBits
 namespace PyIpmi.SdrParse
@@ -51,6 +52,25 @@ theorem bcdDecode_pairs (ps : List (Nat × Nat)) (h : ∀ p ∈ ps, p.1 < 13 ∧
     simp only [List.map_cons, bcdDecode, h1, h2, m1, m2, ih (fun q hq => h q (List.mem_cons_of_mem _ hq)),
       List.flatMap_cons, List.cons_append, List.nil_append]
 
+
+/-- The SDR table holds the character of each of the sixteen codes of §43.15. -/
+theorem bcdPlusSdr_sweep :
+    allLt 16 (fun d => decide (bcdPlusSdr[d]? = some (bcdChar d))) = true := by decide +kernel
+
+theorem sdrBcdDecode_pairs (ps : List (Nat × Nat)) (h : ∀ p ∈ ps, p.1 < 16 ∧ p.2 < 16) :
+    sdrBcdDecode (ps.map fun p => p.1 * 16 + p.2) = .ok (ps.flatMap fun p => [bcdChar p.1, bcdChar p.2]) := by
+  induction ps with
+  | nil => rfl
+  | cons p ps ih =>
+    have hp := h p (List.mem_cons_self)
+    have h1 : (p.1 * 16 + p.2) >>> 4 = p.1 := by omega
+    have h2 : (p.1 * 16 + p.2) &&& 0xf = p.2 := by rw [and_f]; omega
+    have m1 : bcdPlusSdr[p.1]? = some (bcdChar p.1) := by
+      simpa using allLt_spec bcdPlusSdr_sweep p.1 hp.1
+    have m2 : bcdPlusSdr[p.2]? = some (bcdChar p.2) := by
+      simpa using allLt_spec bcdPlusSdr_sweep p.2 hp.2
+    simp only [List.map_cons, sdrBcdDecode, h1, h2, m1, m2, ih (fun q hq => h q (List.mem_cons_of_mem _ hq)),
+      List.flatMap_cons, List.cons_append, List.nil_append]
 
 theorem six_a (x : Nat) : 0x20 + (x &&& 0x3f) = x % 64 + 0x20 := by rw [and_3f]; omega
 theorem six_b (x y : Nat) (hx : x < 256) :
@@ -112,17 +132,18 @@ theorem idString_encode (s : IdString) (h : s.wf = true) (tail : List Nat) :
   have f1 : Variant.intended.bcdRaises = false := rfl
   have f2 : Variant.intended.sixBitStrict = false := rfl
   have f3 : Variant.intended.idTypeShr4 = false := rfl
+  have f4 : Variant.intended.bcdFruTable = false := rfl
   unfold IdString.encode
-  simp only [List.cons_append, idString, hlen, hty, hta, f1, f2, f3, take_raw _ _ _ _ rfl, Bool.false_eq_true,
+  simp only [List.cons_append, idString, hlen, hty, hta, f1, f2, f3, f4, take_raw _ _ _ _ rfl, Bool.false_eq_true,
     if_false]
   cases s with
   | unicode bs => simp [IdString.typeCode, IdString.dataBytes, IdString.view, IdString.text]
   | ascii8 cs => simp [IdString.typeCode, IdString.dataBytes, IdString.view, IdString.text]
   | bcdPlus ps =>
-    have hp : ∀ p ∈ ps, p.1 < 13 ∧ p.2 < 13 := by
+    have hp : ∀ p ∈ ps, p.1 < 16 ∧ p.2 < 16 := by
       simp [IdString.wf] at h
       intro p hp; exact h.1 p.1 p.2 hp
-    simp [IdString.typeCode, IdString.dataBytes, IdString.view, IdString.text, bcdDecode_pairs ps hp]
+    simp [IdString.typeCode, IdString.dataBytes, IdString.view, IdString.text, sdrBcdDecode_pairs ps hp]
   | sixBit cs =>
     have hc : ∀ c ∈ cs, c < 64 := by
       simp [IdString.wf] at h
